@@ -417,7 +417,12 @@ def run(ctx):
     ctx.build_harness()
     ctx.build_harness(release=True)
     n_tie, n_ym, n_odo = run_tie(ctx)
-    n_tot, hist, kinds = run_totality(ctx)
+    if len(ctx.violations) >= 20:
+        # the modelled functions already fail on 20 concrete inputs: the replay files are written, the totality run would add nothing
+        ctx.notes.append('totality run skipped: the model tie already produced 20 failing inputs')
+        n_tot, hist, kinds = 0, {}, {}
+    else:
+        n_tot, hist, kinds = run_totality(ctx)
     return ctx.finish(
         rule='(1) model tie, both builds: sublist/substring/insert before/remove/filter on lists and strings of 0,1,2,3,5 elements with every position and length from -(n+2) to n+2, '
              'the u32/i32/u64/i64/usize boundaries, 1e20, 1e40 and fractions; years-and-months literals over the i64/u64 boundaries of both digit groups and signs; iterations over 1-3 '
